@@ -12,7 +12,7 @@ ID = 'C11'
 
 MANIFEST = {
     'engine': 'crosshair',
-    'text': 'Two parts. (1) CrossHair (symbolic strings) on the real compute_expanded_multivalue_features and compute_subfeatures source over a list-backed pandas stand-in: the cells of the constructor\'s source columns are symbolic strings; for every value within the bound CrossHair must confirm over all paths that the input columns come first and unchanged in the same row order, that exactly one MULTIEX column exists per non-missing token and is "1" exactly on the rows whose delimited value contains the token, that a one-sided sub-feature carries value_a+"AND"+value_b exactly on the rows where the selector has the given value, and that a two-sided one is the 0/1 indicator of its value pair. (2) The real compute_batch_ranking on real pandas with every subset of the construction flags (multi-value expansion, one-/two-sided sub-features, interaction order, transformers, noise controls) and solver-chosen cells: the frame handed to the scorer must start with the original columns unchanged, hold exactly one non-null value per row in every new column, satisfy the same rules for every constructed column it contains, and CONTROL-target must replicate the label.',
+    'text': 'Two parts. (1) CrossHair (symbolic strings) on the real compute_expanded_multivalue_features and compute_subfeatures source over a list-backed pandas stand-in: the cells of the constructor\'s source columns are symbolic strings; for every value within the bound CrossHair must confirm over all paths that the input columns come first and unchanged in the same row order, that exactly one MULTIEX column exists per non-missing token and is "1" exactly on the rows whose delimited value contains the token, that a one-sided sub-feature carries value_a+"AND"+value_b exactly on the rows where the selector has the given value, and that a two-sided one is the 0/1 indicator of its value pair. (2) The real compute_batch_ranking on real pandas with every subset of the construction flags (multi-value expansion, one-/two-sided sub-features, interaction order, transformers, noise controls) and solver-chosen cells: the frame handed to the scorer must start with the original columns unchanged, hold exactly one non-null value per row in every new column, satisfy the same rules for every constructed column it contains, and CONTROL-target must replicate the label. In the pipeline condition one numeric cell is symbolic (a value, a missing cell, a value equal to another row) and transformed columns must give equal cells equal values.',
     'note': 'CrossHair conditions: <= 3-4 symbolic characters over alphabets of <= 4 letters, 2-3 rows; pipeline condition: 3 rows, cells from a pool, 120 flag combinations incl. two exploded multi-value columns with overlapping vocabularies and mappings mixing -> and <->; a further condition uses values containing "&" for two-sided sub-features; the distributions of the random controls are not claimed (presence, length and type only); interaction columns themselves are C10, transformer formulas C12.',
     'technique': 'CrossHair symbolic execution of the real constructors (z3 strings) + solver-driven bounded exploration of the real pipeline over all construction-flag subsets',
 }
